@@ -1,3 +1,4 @@
+(* Proofs about the dispatch model (C02). *)
 From Coq Require Import List Arith Bool Lia Permutation Sorted.
 From Circ Require Import Model.DispatchOrder.
 Import ListNotations.
@@ -6,14 +7,140 @@ Section P.
 Variable K : Type.
 Variable leb : K -> K -> bool.
 Variable hs_of : nat -> list (handler K).
+Hypothesis leb_total : forall a b, leb a b = true \/ leb b a = true.
+Hypothesis leb_trans : forall a b c, leb a b = true -> leb b c = true -> leb a c = true.
 
-Lemma fire_only_queues : forall s ctx n p acts k,
-  stack s = FBody ctx (AFire n p :: acts) :: k ->
-  exists s', step K leb hs_of s = Some s' /\
-    let x := Build_item p (counter s) n in
-    fifo s' = fifo s ++ [x] /\ heap s' = heap s /\ batch s' = batch s /\ stopped s' = stopped s /\
-    stack s' = FBody ctx acts :: k /\ trace s' = trace s ++ [TFire x].
+Notation item := (item K).
+Notation state := (state K).
+Notation tr := (tr K).
+Notation step := (step K leb hs_of).
+Notation pop_min := (pop_min K leb).
+Notation item_lt := (item_lt K leb).
+
+Definition ids (l : list item) : list nat := map ictr l.
+
+(* a is dispatched before b: strictly smaller priority value, or equal priority and fired earlier *)
+Definition prec (a b : item) : Prop :=
+  leb (ikey b) (ikey a) = false \/
+  (leb (ikey a) (ikey b) = true /\ leb (ikey b) (ikey a) = true /\ ictr a < ictr b).
+
+Lemma item_lt_prec : forall a b, item_lt a b = true <-> prec a b.
 Proof.
-  intros s ctx n p acts k H. unfold step. rewrite H. eexists. split. reflexivity. simpl. repeat split.
+  intros a b. unfold DispatchOrder.item_lt, eqk, prec.
+  destruct (leb (ikey a) (ikey b)) eqn:E1; destruct (leb (ikey b) (ikey a)) eqn:E2; simpl;
+    rewrite ?Nat.ltb_lt; split; intro H; auto; try discriminate.
+  - destruct H as [H|(_&_&H)]; [discriminate|auto].
+  - destruct H as [H|(H&_)]; discriminate.
 Qed.
+
+Lemma prec_trans : forall a b c, prec a b -> prec b c -> prec a c.
+Proof.
+  unfold prec. intros a b c [H1|(H1&H1'&L1)] [H2|(H2&H2'&L2)].
+  - left. destruct (leb (ikey c) (ikey a)) eqn:E; auto.
+    destruct (leb_total (ikey a) (ikey b)) as [T|T]; [|congruence].
+    rewrite (leb_trans _ _ _ E T) in H2. discriminate.
+  - left. destruct (leb (ikey c) (ikey a)) eqn:E; auto.
+    rewrite (leb_trans _ _ _ H2 E) in H1. discriminate.
+  - left. destruct (leb (ikey c) (ikey a)) eqn:E; auto.
+    rewrite (leb_trans _ _ _ E H1) in H2. discriminate.
+  - right. repeat split; eauto. lia.
+Qed.
+
+Lemma prec_total : forall a b, ictr a <> ictr b -> prec a b \/ prec b a.
+Proof.
+  intros a b N. unfold prec.
+  destruct (leb (ikey a) (ikey b)) eqn:E1; destruct (leb (ikey b) (ikey a)) eqn:E2; auto.
+  destruct (Nat.lt_total (ictr a) (ictr b)) as [L|[L|L]]; [left|contradiction|right]; right; auto.
+Qed.
+
+Lemma prec_irrefl : forall a, ~ prec a a.
+Proof.
+  intros a [H|(_&_&H)]; [|lia]. destruct (leb_total (ikey a) (ikey a)); congruence.
+Qed.
+
+Lemma not_lt_prec : forall a b, item_lt a b = false -> ictr a <> ictr b -> prec b a.
+Proof.
+  intros a b H N. destruct (prec_total a b N) as [P|P]; auto.
+  apply item_lt_prec in P. congruence.
+Qed.
+
+(* ---------------------------------------------------------------- heappop *)
+Lemma pop_min_none : forall h, pop_min h = None -> h = [].
+Proof.
+  destruct h as [|x r]; simpl; auto. destruct (pop_min r) as [[m r']|]; [|discriminate].
+  destruct (item_lt m x); discriminate.
+Qed.
+
+Lemma pop_min_perm : forall h m r, pop_min h = Some (m, r) -> Permutation h (m :: r).
+Proof.
+  induction h as [|x h IH]; simpl; intros m r H; [discriminate|].
+  destruct (pop_min h) as [[m' r']|] eqn:E.
+  - specialize (IH _ _ eq_refl). destruct (item_lt m' x); inversion H; subst; clear H.
+    + rewrite IH. apply perm_swap.
+    + reflexivity.
+  - apply pop_min_none in E. subst. inversion H; subst. reflexivity.
+Qed.
+
+Lemma pop_min_least : forall h m r, NoDup (ids h) -> pop_min h = Some (m, r) -> Forall (prec m) r.
+Proof.
+  induction h as [|x h IH]; simpl; intros m r ND H; [discriminate|].
+  inversion ND as [|? ? NI ND']; subst.
+  destruct (pop_min h) as [[m' r']|] eqn:E.
+  - specialize (IH _ _ ND' eq_refl). pose proof (pop_min_perm _ _ _ E) as Pm.
+    destruct (item_lt m' x) eqn:L; inversion H; subst; clear H.
+    + constructor; auto. apply item_lt_prec; auto.
+    + assert (Px : prec m m').
+      { apply not_lt_prec; auto. intro Q. apply NI. rewrite <- Q.
+        apply in_map. eapply Permutation_in; [symmetry; exact Pm|left; auto]. }
+      eapply Permutation_Forall; [symmetry; exact Pm|].
+      constructor; auto. eapply Forall_impl; [|exact IH]. intros y Hy. eapply prec_trans; eauto.
+  - apply pop_min_none in E. subst. inversion H; subst. constructor.
+Qed.
+
+(* the order in which a heap will be emptied: repeated heappop *)
+Fixpoint sel (n : nat) (h : list item) : list item :=
+  match n with
+  | O => []
+  | S n' => match pop_min h with None => [] | Some (m, r) => m :: sel n' r end
+  end.
+Definition sel_sort (h : list item) : list item := sel (length h) h.
+
+Lemma sel_sort_pop : forall h m r, pop_min h = Some (m, r) -> sel_sort h = m :: sel_sort r.
+Proof.
+  intros h m r H. unfold sel_sort. pose proof (Permutation_length (pop_min_perm _ _ _ H)) as L.
+  simpl in L. rewrite L. simpl. rewrite H. reflexivity.
+Qed.
+
+Lemma sel_perm : forall n h, length h = n -> Permutation (sel n h) h.
+Proof.
+  induction n; intros h L.
+  - destruct h; [constructor|discriminate].
+  - simpl. destruct (pop_min h) as [[m r]|] eqn:E.
+    + pose proof (pop_min_perm _ _ _ E) as Pm. rewrite Pm. constructor. apply IHn.
+      apply Permutation_length in Pm. simpl in Pm. lia.
+    + apply pop_min_none in E. subst. discriminate.
+Qed.
+
+Lemma sel_sort_perm : forall h, Permutation (sel_sort h) h.
+Proof. intros. apply sel_perm. reflexivity. Qed.
+
+Lemma ids_perm : forall l l' : list item, Permutation l l' -> Permutation (ids l) (ids l').
+Proof. intros. apply Permutation_map. assumption. Qed.
+
+Lemma sel_sorted : forall n h, length h = n -> NoDup (ids h) -> StronglySorted prec (sel n h).
+Proof.
+  induction n; intros h L ND; simpl; [constructor|].
+  destruct (pop_min h) as [[m r]|] eqn:E; [|constructor].
+  pose proof (pop_min_perm _ _ _ E) as Pm.
+  assert (NDr : NoDup (ids r)).
+  { pose proof (Permutation_NoDup (ids_perm _ _ Pm) ND) as Q. inversion Q; auto. }
+  assert (Lr : length r = n) by (apply Permutation_length in Pm; simpl in Pm; lia).
+  constructor.
+  - apply IHn; auto.
+  - eapply Permutation_Forall; [symmetry; apply sel_perm; auto|]. eapply pop_min_least; eauto.
+Qed.
+
+Lemma sel_sort_sorted : forall h, NoDup (ids h) -> StronglySorted prec (sel_sort h).
+Proof. intros. apply sel_sorted; auto. Qed.
+
 End P.
